@@ -22,7 +22,7 @@ ANCHORS = ["decaylanguage.decay.decay:DecayChain.flatten"]
 WORKERS = {"quick": 4, "thorough": 16}
 WATCHDOG = {"quick": 600, "thorough": 3000}
 WTESTS = {"groups": ['flatten'], "tests": ['tests/decay']}
-REQUIRED = {
+REQUIRED = {"sub-decay-without-daughters": 10, 
     "subdecays>=4": 20, "mult3-of-decaying": 20, "reoccur-two-depths": 20, "mother-last": 20, "stable-nonempty": 20,
     "stable-as-set": 5, "stable-as-tuple": 5, "visible_bf": 20, "same-shape-other-branching-fractions": 20, "returned-chain-edited-then-original-compared": 50,
     "C12.flatten.leaves_and_product": 500, "C12.flatten.original_unchanged": 500,
@@ -178,7 +178,9 @@ def run(ctx):
     # random DAG-shaped chains
     for i in range(ctx.pick(400, 3000)):
         n = ctx.rng.choice([2, 3, 4, 5, 6, 8, 12])
-        ch = chains.random_chain(ctx.rng, n)
+        ch = chains.random_chain(ctx.rng, n, empty=0.12)
+        if any(not v[1] for v in ch["types"].values()):
+            ctx.hit("sub-decay-without-daughters")
         names = list(ch["types"])
         m = ch["mother"]
         others = [x for x in names if x != m]
